@@ -177,7 +177,11 @@ func (e *KnowledgeBase) MakeCatalog() *Catalog {
 		MemoryExpressionAtomVariableMap: nil,
 	}
 	for _, v := range e.RuleEntries {
-		v.MakeCatalog(catalog)
+		// a removed rule is not part of what gets stored: the Deleted flag has no place in the
+		// catalog format, so a stored-and-loaded removed rule used to come back to life.
+		if !v.Deleted {
+			v.MakeCatalog(catalog)
+		}
 	}
 	e.WorkingMemory.MakeCatalog(catalog)
 
